@@ -41,6 +41,16 @@ POINTS = {
     ],
 }
 
+# round 4 (lattice families): a quantised reading (levels 0..8) next to constant
+# columns, and two quantised, uncorrelated readings.  One column carries each
+# retained component, the projection is (reading - mean), and with window sizes /
+# units chosen so that the mean is a dyadic number every projection and every bin
+# edge is exact: the readings sit *exactly* on bin edges (see _lattice_tasks).
+POINTS["lat2"] = [(float(k), 2.5) for k in range(9)]
+POINTS["lat3"] = [(-1.0, float(k), 2.5) for k in range(9)]
+# symbol a + 5 * b: first reading a in 0..4, second reading 16 * b in {0, 16, 32}, and a constant
+POINTS["grid"] = [(float(a), 16.0 * b, 0.5) for b in range(3) for a in range(5)]
+
 
 # ----------------------------------------------------------------------------
 # round 3b: the same menus in other units of measurement, at other levels, as
@@ -204,6 +214,30 @@ class PCACDSystem(System):
                 ctx.count("fam_%s_drifts" % fam)
                 if exp["epoch"] >= 2:
                     ctx.count("fam_%s_second_epoch_drifts" % fam)
+        if exp.get("exact_dropped"):
+            ctx.count("exact_regime_left")  # a row off the dyadic grid: back to the tolerant edge rule
+        if exp["checked"] and exp["exact_comps"]:
+            # strict regime (models/pcacd.py "Exactly decidable bin edges")
+            lat = "lat_" if fam and fam.startswith("lattice") else ""
+            ctx.count(lat + "exact_edge_checks")
+            if exp["exact_comps"] >= 2:
+                ctx.count(lat + "exact_edge_checks_two_components")
+            if p.get("online_scaling", True):
+                ctx.count(lat + "exact_edge_checks_scaled")
+            if exp["epoch"] >= 2:
+                ctx.count(lat + "exact_edge_checks_second_epoch")
+            if exp["edge_ties"]:
+                ctx.count(lat + "exact_edge_tie_checks")
+                if exp["identical_windows"]:
+                    ctx.count(lat + "exact_edge_tie_identical_windows")
+                elif (impl_score if impl_score is not None else exp["score"]) > 1e-9:
+                    ctx.count(lat + "exact_edge_tie_nonzero_scores")
+                if exp["convention_matters"]:
+                    ctx.count(lat + "exact_edge_convention_sensitive_checks")
+                if obs["state"] == "drift":
+                    ctx.count(lat + "exact_edge_tie_drifts")
+                if model.lam >= 1:
+                    ctx.count(lat + "exact_edge_tie_checks_lambda1")
         if exp["phase"] == "slide":
             if not p.get("online_scaling", True):
                 ctx.count("noscale_sliding_steps")
